@@ -190,7 +190,9 @@ OPS_PAIR = ['series.from_concat', 'frame.from_concat0', 'frame.from_concat1', 'f
             'frame.values-row', 'frame.iloc-row', 'frame.iter_array1', 'frame.from_items', 'series.from_overlay', 'frame.from_records-rows',
             'frame.relabel-keep-dtype', 'frame.iter_tuple1', 'frame.fillna_forward1', 'frame.fillna_backward1', 'frame.assign-rows-frame-into-2d-block',
             'frame.assign-rows-frame-into-1d-blocks', 'framego.setitem-then-rows', 'framego.extend-then-rows', 'framego.extend_items-then-rows',
-            'series.from_concat-aba', 'frame.from_concat0-aba', 'index.append-via-concat-aba', 'frame.from_overlay-into-2d-float-block', 'frame.from_overlay-into-2d-object-block']
+            'series.from_concat-aba', 'frame.from_concat0-aba', 'index.append-via-concat-aba', 'frame.from_overlay-into-2d-float-block', 'frame.from_overlay-into-2d-object-block',
+            'frame.from_items(consolidate_blocks)', 'frame.astype-other-column(consolidates)', 'frame.from_concat1(consolidate_blocks)',
+            'framego.extend_items(fill_value)', 'framego.extend(fill_value)', 'framego.setitem(fill_value)']
 
 
 def cases(tier):
@@ -463,7 +465,7 @@ def run_pair(case, ctx):
                 r = tgt.assign.loc[['y'], ['p', 'q']](val)
                 rc = columns_of(r)
                 pairs = [(1, rc[0][0]), (la[0], rc[0][1]), (3, rc[1][0]), (lb[0], rc[1][1])]
-            elif opname.startswith('framego.'):
+            elif opname.endswith('-then-rows'):
                 # a grow-only Frame built column by column, then read row-wise (rows consolidate every column into one array)
                 g = sf.FrameGO.from_items((('p', a),), index=('x', 'y'))
                 if opname == 'framego.setitem-then-rows':
@@ -517,6 +519,32 @@ def run_pair(case, ctx):
                 compare(ctx, opname, [(keep[0], rc[0][0]), (la[1], rc[0][1])], info, blockname, pname)
                 compare(ctx, opname, [(lb[0], rc[1][0]), (keep[1], rc[1][1])], info, blockname, qname)
                 continue
+            elif opname in ('frame.from_items(consolidate_blocks)', 'frame.astype-other-column(consolidates)', 'frame.from_concat1(consolidate_blocks)'):
+                # consolidation joins adjacent columns of ONE dtype into a block: neighbours of another dtype (width, unit) keep their cells and dtypes
+                bystander = PROTOS['U1']
+                if opname.startswith('frame.from_items'):
+                    r = sf.Frame.from_items((('p', a), ('q', b), ('z', bystander)), index=('x', 'y'), consolidate_blocks=True)
+                elif opname.startswith('frame.astype'):
+                    r = sf.Frame.from_items((('p', a), ('q', b), ('z', bystander)), index=('x', 'y')).astype['z'](object)
+                else:
+                    r = sf.Frame.from_concat((fa, sf.Frame.from_items((('q', b), ('z', bystander)), index=('x', 'y'))), axis=1, consolidate_blocks=True)
+                pairs = list(zip(la, list(columns_of(r)[0]))) + list(zip(lb, list(columns_of(r)[1])))
+                untouched(ctx, opname, (str(a.dtype), str(b.dtype)), tuple(str(c.dtype) for c in columns_of(r)[:2]), info, pname, qname)
+            elif opname in ('framego.extend_items(fill_value)', 'framego.extend(fill_value)', 'framego.setitem(fill_value)'):
+                # a Series that does not cover the index is completed with the fill value supplied (an element of the second prototype)
+                g = sf.FrameGO.from_items((('p', a),), index=('x', 'y'))
+                part = sf.Series(a[:1], index=('x',), name='n')
+                fill = lb[0]
+                if is_missing(fill):
+                    continue
+                if opname.startswith('framego.extend_items'):
+                    g.extend_items((('n', part),), fill_value=fill)
+                elif opname.startswith('framego.extend('):
+                    g.extend(part, fill_value=fill)
+                else:
+                    g.__setitem__('n', part, fill)
+                pairs = [(la[0], columns_of(g)[1][0]), (fill, columns_of(g)[1][1])]
+                untouched(ctx, opname, str(a.dtype), str(columns_of(g)[0].dtype), info, pname, qname)
             elif opname == 'frame.relabel-keep-dtype':
                 r = fab.relabel(columns=('u', 'v')).rename('nn').reindex(index=('y', 'x'))
                 pairs = list(zip(la[::-1], list(columns_of(r)[0]))) + list(zip(lb[::-1], list(columns_of(r)[1])))
